@@ -232,9 +232,12 @@ def _work(args) -> dict:
     if idx == 0:
         cases.append((copy.deepcopy(base), []))  # the identity edit
     drawn: List[Tuple[dict, List[dict]]] = []
-    mini(evolve.evolved(base, 1, 6), n_models + 1, (seed, "C06", "model", idx), lambda x: drawn.append(x))
+    # generation floor: shard i always exercises production FOCI[i] (every production in every run of 16 shards)
+    focus = evolve.Evolver.FOCI[idx % len(evolve.Evolver.FOCI)]
+    mini(evolve.evolved(base, 0, 5, focus=focus), n_models + 1, (seed, "C06", "model", idx), lambda x: drawn.append(x))
     # Hypothesis starts with the simplest example (the same in every shard): keep it in shard 0 only
-    cases.extend(drawn if idx == 0 else drawn[1:])
+    cases.extend(drawn[:n_models] if n_models == 1 else (drawn if idx == 0 else drawn[1:]))
+    out["stats"]["focus:" + focus] += len(cases)
     for k, (doc, edits) in enumerate(cases):
         st_ = check_model(ctx, base, doc, edits, derive_seed(seed, idx, k), budget, cli_sample=(k == 0 and idx % 4 == 0))
         out["stats"].update(st_)
